@@ -55,9 +55,15 @@ func (r Wrapper) CreateDPoPProof(ctx context.Context, request CreateDPoPProofReq
 
 	// we use the content hack in Open API Spec so no unescaping happens in the generated code. This way we can handle web:did keys with port numbers.
 	// unescape manually here
-	kid, err := url.PathUnescape(request.Kid)
-	if err != nil {
-		return nil, core.InvalidInputError("%w", err)
+	kid := request.Kid
+	// Echo takes path parameters from URL.RawPath, which is only set when the path was not sent in its default encoding.
+	// Otherwise they are taken from URL.Path and are unescaped already: unescaping a second time would address another key
+	// (did:web key IDs contain percent-encoded characters).
+	if incoming, ok := ctx.Value(httpRequestContextKey{}).(*http.Request); !ok || incoming.URL.RawPath != "" {
+		kid, err = url.PathUnescape(request.Kid)
+		if err != nil {
+			return nil, core.InvalidInputError("%w", err)
+		}
 	}
 
 	dpop, err := r.jwtSigner.SignDPoP(ctx, *token, kid)
